@@ -429,8 +429,13 @@ func main() {
 	}
 	for _, j := range jobs {
 		r := R
-		if strings.HasPrefix(j.spec, "testdata:") && r > 20 {
-			r = 20 // one analysis of a program importing the standard library costs ~10 s
+		if strings.HasPrefix(j.spec, "testdata:") {
+			// one analysis of a program importing the standard library costs ~10 s
+			if r > 20 {
+				r = 20
+			} else if r > 6 {
+				r = 6
+			}
 		}
 		check(j, r, crossTestdata || strings.HasPrefix(j.spec, "dir:"))
 	}
